@@ -187,6 +187,13 @@ func (h *ResolverHandler) AddValueRemovedCallback(id uint32, cb func()) func()  
 func (h *ResolverHandler) AddResolverRemovedCallback(cb func()) func()          { return func() {} }
 func (h *ResolverHandler) AddResolver(res directive.Resolver, cb func()) func() { return func() {} }
 
+// IsIdle reports the last MarkIdle value.
+func (h *ResolverHandler) IsIdle() bool {
+	h.mu.Lock()
+	defer h.mu.Unlock()
+	return h.Idle
+}
+
 // All returns every value ever added.
 func (h *ResolverHandler) All() []directive.Value {
 	h.mu.Lock()
